@@ -558,23 +558,24 @@ func (c *Context) Sqrt(d, x *Decimal) (Condition, error) {
 		return 0, err
 	}
 
-	// Round approx to the requested precision. approx is itself a rounded
-	// value, so this second rounding can go the wrong way when approx sits on
+	// approx is the root rounded to the working precision; rounding it a second
+	// time, to the requested precision, can go the wrong way when approx sits on
 	// (or within its own error of) a half-way point, and it cannot tell an
 	// inexact root whose working digits happen to be zeros from an exact one.
-	// As the paper prescribes, compare the squares of r - 1/2 ulp and
-	// r + 1/2 ulp with f and step to the neighbour if f lies outside; the
-	// squares are computed exactly.
+	// As the paper prescribes, decide by comparing squares with f, computed
+	// exactly: truncate approx to the requested precision, and step up to the
+	// next value if f lies above the square of the half-way point between the
+	// two (a tie goes to the even neighbour).
 	nc.Precision = c.Precision
-	nc.Rounding = RoundHalfEven
+	nc.Rounding = RoundDown
 	var r Decimal
 	res := nc.round(&r, &approx)
 	adjLo := int64(approx.Exponent) + approx.NumDigits() - 1 + e/2
-	adjHi := int64(r.Exponent) + r.NumDigits() - 1 + e/2
+	adjHi := adjLo + 1
+	nc.Rounding = RoundHalfEven
 	if r.Form != Finite || res.Subnormal() || adjLo < int64(c.MinExponent) || adjHi > int64(c.MaxExponent) {
-		// The result is outside the normal range (or the scaled value already
-		// was, for an unusually narrow context): round approx once, directly
-		// to the subnormal exponent or to an overflow.
+		// The result is (or may be) outside the normal range: round approx
+		// once, directly to the subnormal exponent or to an overflow.
 		d.Set(&approx)
 		d.Exponent += int32(e / 2)
 		res = nc.round(d, d)
@@ -582,21 +583,13 @@ func (c *Context) Sqrt(d, x *Decimal) (Condition, error) {
 	}
 	exact := BaseContext.WithPrecision(0)
 	exact.Traps = 0
-	var ulp, half, bound, sq Decimal
+	var ulp, mid, sq Decimal
 	ulp.SetFinite(1, r.Exponent)
-	half.SetFinite(5, r.Exponent-1)
-	odd := r.Coeff.Bit(0) == 1
-	exact.Sub(&bound, &r, &half)
-	exact.Mul(&sq, &bound, &bound)
-	if cmp := sq.Cmp(&f); cmp > 0 || (cmp == 0 && odd) {
-		// f < (r - ulp/2)^2, or a tie that half-even resolves downwards.
-		exact.Sub(&r, &r, &ulp)
-	} else {
-		exact.Add(&bound, &r, &half)
-		exact.Mul(&sq, &bound, &bound)
-		if cmp := sq.Cmp(&f); cmp < 0 || (cmp == 0 && odd) {
-			exact.Add(&r, &r, &ulp)
-		}
+	mid.SetFinite(5, r.Exponent-1)
+	exact.Add(&mid, &r, &mid)
+	exact.Mul(&sq, &mid, &mid)
+	if cmp := sq.Cmp(&f); cmp < 0 || (cmp == 0 && r.Coeff.Bit(0) == 1) {
+		exact.Add(&r, &r, &ulp)
 	}
 	// The root is exact if and only if its square is f.
 	exact.Mul(&sq, &r, &r)
